@@ -3,4 +3,7 @@
    nodes / handles / edge multiplicity / weak rows / maps.  Used with -coverage 1 (per-action counts). *)
 EXTENDS GcImpl
 RefSpec == Ref!Spec
+\* the last observation is not read by any action: it need not distinguish states
+SnapView == IF "obs" \in DOMAIN snap THEN [snap EXCEPT !.obs = 0] ELSE snap
+FullView == <<nalloc, nodes, H, E, armed, rc, EB, MB, gc, SnapView, ist>>
 =============================================================================
